@@ -74,7 +74,8 @@ def run(ctx):
     ok = "self.RE = RE" in t and "self._sig.subscribe(self, event_type=event_type, run=True)" in t
     ctx.ob("C31.D2-remove-releases", cname(ins, None, "install records the engine and subscribes with run=True"), ok, "" if ok else "install changed", where=where(ins, ins.node))
     se = repo.func(SU, "SuspenderBase.__set_event")
-    ok = any(isinstance(s, ast.If) and A.norm(s.test) == "self._ev" for s in se.node.body)
+    # guarded by the pending event being there: `if self._ev:` / `if self._ev is not None:` / a local read from it
+    ok = any(isinstance(s, ast.If) and A.norm(q.expand(se.node, s.test)) in ("self._ev", "self._ev is not None") for s in se.node.body)
     ctx.ob("C31.D2-remove-releases", cname(se, None, "releasing without a pending event is harmless"), ok, "" if ok else "double removal fails", where=where(se, se.node))
     # D3
     rs = rm.m("remove_suspender")
